@@ -1,0 +1,75 @@
+//go:build verif
+
+package ecs
+
+// Contracts for registry.go (component/resource type registries) and mask-to-ID conversion.
+
+//@ spec func regCount(r *registry) int := len(r.Components)
+
+//@ pred regInv(r *registry) :=
+//@      r.Components != nil && len(r.Types) == maskTotalBits
+//@   && 0 <= len(r.Components) && len(r.Components) <= maskTotalBits && len(r.IDs) == len(r.Components)
+//@   && (forall tp reflect.Type :: __has(r.Components, tp) ==>
+//@         int(r.Components[tp]) < len(r.Components) && r.Types[r.Components[tp]] == tp)
+//@   && (forall i uint8 :: int(i) < len(r.Components) ==>
+//@         __has(r.Components, r.Types[i]) && r.Components[r.Types[i]] == i && mhas(r.Used, i) && r.IDs[i] == i)
+//@   && (forall i uint8 :: int(i) >= len(r.Components) ==> !mhas(r.Used, i))
+
+//@ func (*registry).ComponentID
+//@   serves C18
+//@   requires regInv(r)
+//@   panics   !__has(r.Components, tp) && len(r.Components) >= maskTotalBits
+//@   ensures  inv: regInv(r)
+//@   ensures  known: old(__has(r.Components, tp)) ==> result0 == old(r.Components[tp]) && !result1 && len(r.Components) == old(len(r.Components))
+//@   ensures  fresh: !old(__has(r.Components, tp)) ==> int(result0) == old(len(r.Components)) && result1 && len(r.Components) == old(len(r.Components)) + 1
+//@   ensures  stable: forall t2 reflect.Type :: old(__has(r.Components, t2)) ==> __has(r.Components, t2) && r.Components[t2] == old(r.Components[t2])
+//@   ensures  maps: __has(r.Components, tp) && r.Components[tp] == result0
+//@   ensures  nothing-else: forall t2 reflect.Type :: t2 != tp ==> __has(r.Components, t2) == old(__has(r.Components, t2))
+//@   xpure
+
+//@ func (*registry).registerComponent
+//@   serves C18
+//@   requires regInv(r) && !__has(r.Components, tp) && totalBits == maskTotalBits
+//@   panics   len(r.Components) >= maskTotalBits
+//@   ensures  inv: regInv(r)
+//@   ensures  id: int(result) == old(len(r.Components)) && len(r.Components) == old(len(r.Components)) + 1
+//@   ensures  maps: __has(r.Components, tp) && r.Components[tp] == result
+//@   ensures  stable: forall t2 reflect.Type :: old(__has(r.Components, t2)) ==> __has(r.Components, t2) && r.Components[t2] == old(r.Components[t2])
+//@   ensures  nothing-else: forall t2 reflect.Type :: t2 != tp ==> __has(r.Components, t2) == old(__has(r.Components, t2))
+//@   xpure
+
+//@ func (*registry).unregisterLastComponent
+//@   serves C18
+//@   requires regInv(r) && len(r.Components) > 0
+//@   ensures  inv: regInv(r)
+//@   ensures  count: len(r.Components) == old(len(r.Components)) - 1
+//@   ensures  removed: !__has(r.Components, old(r.Types[uint8(len(r.Components)-1)]))
+//@   ensures  stable: forall t2 reflect.Type :: t2 != old(r.Types[uint8(len(r.Components)-1)]) ==> __has(r.Components, t2) == old(__has(r.Components, t2)) && (__has(r.Components, t2) ==> r.Components[t2] == old(r.Components[t2]))
+
+//@ func (*registry).ComponentType
+//@   serves C18
+//@   requires regInv(r)
+//@   ensures  value: result0 == r.Types[id] && result1 == mhas(r.Used, id)
+//@   modifies nothing
+
+//@ func (*registry).Count
+//@   serves C18
+//@   ensures  value: result == len(r.Components)
+//@   modifies nothing
+
+// Mask to ID-list conversion: must not fault for any number of registered types up to and
+// including the documented maximum (C18: "the documented maximum ... can be registered and all of
+// them used").
+
+//@ func (*bitMask256).toTypes
+//@   serves C18
+//@   requires reg != nil && 0 <= len(reg.Components) && len(reg.Components) <= maskTotalBits
+//@   loop 1 invariant idx-nonneg: 0 <= idx
+//@   loop 2 invariant idx-nonneg: 0 <= idx
+//@   ensures  length: len(result) >= 0
+
+//@ func (*bitMask64).toTypes
+//@   serves C18
+//@   requires reg != nil && 0 <= len(reg.Components) && len(reg.Components) <= 64
+//@   loop 1 invariant idx-nonneg: 0 <= idx
+//@   ensures  length: len(result) >= 0
